@@ -362,16 +362,25 @@ func (doc *Document) Warnings() (warnings Warnings) {
 			context.Family = family
 		}
 
-		Filter(node, doc, func(node Node) (newNode Node, traverseChildren bool) {
-			if warner, ok := node.(Warner); ok {
-				for _, warning := range warner.Warnings() {
-					warning.SetContext(context)
-					warnings = append(warnings, warning)
-				}
-			}
+		warnings = append(warnings, nodeWarnings(node, context)...)
+	}
 
-			return node, true
-		})
+	return
+}
+
+// nodeWarnings collects the warnings of node and all of its descendants. It
+// only reads the nodes (Filter would copy them and attach families to the
+// document).
+func nodeWarnings(node Node, context WarningContext) (warnings Warnings) {
+	if warner, ok := node.(Warner); ok {
+		for _, warning := range warner.Warnings() {
+			warning.SetContext(context)
+			warnings = append(warnings, warning)
+		}
+	}
+
+	for _, child := range node.Nodes() {
+		warnings = append(warnings, nodeWarnings(child, context)...)
 	}
 
 	return
